@@ -1320,6 +1320,30 @@ def state_closure(cx: Cx, ob: Ob) -> None:
     import ast as _ast
 
     ci_ = cx.model.cls(CONV, ob.id)
+    # a DESCRIPTOR object as class attribute is one object for all converters: what its __set__ keeps on ITSELF
+    # (self.value = ..) is shared by every instance - the last assignment through any converter decides for all
+    for name_, val_ in list(ci_.assigns.items()) + [(k_, v_) for k_, (_a, v_) in ci_.fields.items() if v_ is not None]:
+        if not (isinstance(val_, _ast.Call) and isinstance(val_.func, _ast.Name)):
+            continue
+        dcls = next((c_ for c_ in cx.model.classes.values() if c_.name == val_.func.id and c_.module is ci_.module), None)
+        setter = dcls.methods.get("__set__") if dcls is not None else None
+        if setter is None or len(setter.params) < 3:
+            continue
+        dself, dobj = setter.params[0].name, setter.params[1].name
+        on_self = [n_ for n_ in _ast.walk(setter.node) if isinstance(n_, _ast.Attribute) and isinstance(n_.ctx, _ast.Store) and isinstance(n_.value, _ast.Name) and n_.value.id == dself]
+        on_obj = [n_ for n_ in _ast.walk(setter.node) if (isinstance(n_, (_ast.Attribute, _ast.Subscript)) and isinstance(n_.ctx, _ast.Store) and dobj in {x.id for x in _ast.walk(n_.value) if isinstance(x, _ast.Name)}) or (isinstance(n_, _ast.Call) and _ast.unparse(n_.func) in ("setattr", "object.__setattr__") and n_.args and isinstance(n_.args[0], _ast.Name) and n_.args[0].id == dobj)]
+        if on_self:
+            ob.violate(
+                setter.qualname,
+                f"src/curies/{dcls.module.relpath}:{on_self[0].lineno}",
+                f"Converter.{name_} is a descriptor ({dcls.name}) whose __set__ keeps the value on the descriptor itself (`{_ast.unparse(on_self[0])} = ..`): there is ONE descriptor for all converters, so constructing or configuring any converter changes `{name_}` of every other one - a derived converter built with the default resets it for the converters it was derived from",
+                witness=f"a = Converter(rs, {name_}=X); b = Converter(rs): a.{name_} is now b's",
+                detail=f"descriptor-shared-state:{name_}",
+            )
+        elif on_obj:
+            ob.site(f"{setter.where} {setter.qualname}", f"descriptor for Converter.{name_} stores per instance")
+        else:
+            ob.undecide(f"Converter.{name_} is a descriptor ({dcls.name}) whose __set__ was not recognised as storing per instance")
     shared = {}
     for name_, (ann_, val_) in list(ci_.fields.items()) + [(k_, (None, v_)) for k_, v_ in ci_.assigns.items()]:
         if val_ is not None and (isinstance(val_, (_ast.Dict, _ast.List, _ast.Set)) or (isinstance(val_, _ast.Call) and _ast.unparse(val_.func) in ("dict", "list", "set", "defaultdict", "collections.defaultdict"))):
